@@ -120,6 +120,8 @@ def inlinable_calls(unit, fn, fd, force=None):
             elif cal["kind"] == "func":
                 if n["k"] != "CallExpr":
                     continue
+            elif n["k"] == "CallExpr" and cal.get("static"):
+                pass        # a new static member function (of this class or of a base) is a free function in disguise
             else:
                 if tgt.get("clsqn") != fd.get("clsqn") and tgt.get("clsqn") != fd.get("lexclsqn"):
                     continue
